@@ -41,7 +41,7 @@ def scan_forbidden():
     return bad
 
 TRANSLATED_USERS = {"C10", "C13", "C19"}
-IMP_USERS = {"CFDivisor": "C05", "CFGraph": "C13", "CFiringScript": "C06", "CFConfig": "C10"}
+IMP_USERS = {"CFDivisor": {"C05", "C20"}, "CFGraph": {"C13", "C20"}, "CFiringScript": {"C06", "C20"}, "CFConfig": {"C10"}}
 def proof_stage(pid, tier, log):
     """returns dict(obligations, discharged, names, failures[list of str], assumptions)"""
     res = {"obligations": 0, "discharged": 0, "theorems": [], "failures": [], "axioms": []}
@@ -58,8 +58,8 @@ def proof_stage(pid, tier, log):
     # ... and so are the dictionary-mutating methods of CFDivisor (C05) and CFGraph (C13), one generated file per class
     rc_i, out_i = sh("python3 %s" % os.path.join(VERIF, "tools", "translate_imp.py"), 120, VERIF)
     log.append("translate_imp: rc=%d %s" % (rc_i, out_i[-500:]))
-    for cls, user in IMP_USERS.items():
-        if pid == user and (("TRANSLATOR-UNSUPPORTED[%s]" % cls) in out_i or (rc_i != 0 and "TRANSLATOR-UNSUPPORTED[" not in out_i)):
+    for cls, users in IMP_USERS.items():
+        if pid in users and (("TRANSLATOR-UNSUPPORTED[%s]" % cls) in out_i or (rc_i != 0 and "TRANSLATOR-UNSUPPORTED[" not in out_i)):
             res["failures"].append("the source translator no longer accepts a translated method of %s (%s)" % (cls, out_i.strip()[-300:]))
     if not os.path.exists(os.path.join(COQ, "Makefile")):
         sh("coq_makefile -f _CoqProject -o Makefile", 120, COQ)
@@ -246,7 +246,7 @@ def main():
             "trusted_base": ["Coq 8.16.1 kernel (incl. vm_compute); no native_compute", "axioms: none (every property theorem prints 'Closed under the global context')" if not pr["axioms"] else "axioms: %s" % pr["axioms"],
                              "extraction: ExtrOcamlBasic only (bool, option, unit, list, prod, sumbool, sumor mapped; Z, positive, nat kept inductive); ocaml/driver.ml; Zarith for decimal I/O",
                              "harness: generators, canonicalisation, comparison (harness/*.py); oracle.py only for failing-input search",
-                             ] + (["tools/translate.py (Python ast -> Gallina for the functions this property's *_source_* theorems speak about) and the Python built-in semantics restated in Base/PyLib.v"] if pid in TRANSLATED_USERS else []) + (["tools/translate_imp.py (Python ast -> Gallina for the dictionary-mutating methods this property's *_source_* theorems speak about), the dictionary / set semantics restated in Base/PyDict.v and the representation relations of Link/ImpRep.v"] if pid in IMP_USERS.values() else []) + [
+                             ] + (["tools/translate.py (Python ast -> Gallina for the functions this property's *_source_* theorems speak about) and the Python built-in semantics restated in Base/PyLib.v"] if pid in TRANSLATED_USERS else []) + (["tools/translate_imp.py (Python ast -> Gallina for the dictionary-mutating methods this property's *_source_* theorems speak about), the dictionary / set semantics restated in Base/PyDict.v and the representation relations of Link/ImpRep.v"] if any(pid in u for u in IMP_USERS.values()) else []) + [
                              "the implementation is compared with the model on the generated cases of this run, not verified for all inputs"],
             "theorems": pr["theorems"], "proof_failures": pr["failures"],
             "evaluations": stats["impl_runs"], "distinct_nontrivial": nontrivial,
